@@ -17,6 +17,9 @@ WS = {
     "newline": lambda s: s.replace(" ", "\n"),
     "nbsp": lambda s: s.replace(" ", "\xa0"),
     "mixed": lambda s: s.replace(" ", " \xa0\t "),
+    "nbsp-led-run": lambda s: s.replace(" ", "\xa0 "),
+    "nbsp-nbsp": lambda s: s.replace(" ", "\xa0\xa0"),
+    "nbsp-tab": lambda s: s.replace(" ", "\xa0\t"),
     "colon": lambda s: s + ":",
 }
 
@@ -43,7 +46,7 @@ def work(s):
     canonical = s == s.strip() and "  " not in s and not s.rstrip().endswith(":")
     if canonical:
         for name, w in WS.items():
-            if name in ("tab", "newline", "nbsp", "double", "mixed") and " " not in s:
+            if name != "pad" and name != "colon" and " " not in s:
                 continue
             n += 1
             r = parse(w(s))
